@@ -138,6 +138,7 @@ func runC12(c *Ctx, r *Rec) {
 	r.floor("D1-diagnostic-has-token", 3)
 	checkDiagnosticBuilders(c, r, "D1-diagnostic-cannot-fail")
 	checkIndexGuardAdmitsLength(c, r, "D1-guard-excludes-the-length", c.allFuncDecls("cdcn"))
+	checkGuardExcludesCapacity(c, r, "D1-guard-excludes-the-capacity", "cdcn")
 
 	// ---- D2 unchecked assertions
 	nA := 0
